@@ -281,7 +281,12 @@ func (m *MonC05) OnEvent(w *World, rec *StepRec) []*Violation {
 	if rec.Crashed {
 		return nil // messages released before the crash were checked against the disk of that moment below
 	}
-	hs := w.DiskHS(i)
+	// term and vote must be *durable*: a hard-state write the contract did not require to
+	// be synced (MustSync=false, or an async append without responses) does not count
+	hs := n.SyncedHS
+	if hs == nil {
+		hs = &pb.HardState{}
+	}
 	dv := diskView(n.Disk)
 	check := func(msg *pb.Message) {
 		if msg.GetFrom() != n.ID {
